@@ -25,7 +25,7 @@ var ctx = context.Background()
 
 func TestMain(m *testing.M) {
 	vkit.Rec(prop).SetLevel("exploration",
-		"generated (message type/content, sender side, key setup incl. previous-key variants, receiver variant) cases with a round-trip / must-fail oracle; ciphertext mutations (all single-bit flips and all truncations of sampled ciphertexts, random splices, re-marshaled envelopes with ciphertext of every length 0..40, unknown/duplicated fields, arbitrary bytes) with the oracle 'error or exactly the original, never a panic'. Non-trivial = mutation of a ciphertext that decrypts before mutation, a receiver differing in exactly one of {node key, server key, key ID}, or a previous-key round trip; distinct = (setup, message type, mutation kind/position).")
+		"generated (message type/content, sender side, key setup incl. previous-key variants, receiver variant) cases with a round-trip / must-fail oracle; ciphertext mutations (all single-bit flips and all truncations of sampled ciphertexts, random splices, re-marshaled envelopes with ciphertext of every length 0..40, unknown/duplicated fields, arbitrary bytes) with the oracle 'error or exactly the original, never a panic'. plus sequences of several messages through the same (fresh-deriving or key-retaining) key sources. Non-trivial = mutation of a ciphertext that decrypts before mutation, a receiver differing in exactly one of {node key, server key, key ID}, or a previous-key round trip; distinct = (setup, message type, mutation kind/position).")
 	vkit.Main(m)
 }
 
@@ -453,4 +453,102 @@ func ecdhKey(priv []byte) ([]byte, error) {
 		return nil, err
 	}
 	return k.PublicKey().Bytes(), nil
+}
+
+// cachingSource is a key source that derives its shared key once and hands out
+// the SAME slice on every call, as an application-side X25519KeyProducer may
+// legitimately do (the interface says nothing about ownership of the slice).
+type cachingSource struct {
+	inner    nodeenrollment.X25519KeyProducer
+	id       string
+	key      []byte
+	prevID   string
+	prevKey  []byte
+	prevErr  error
+	resolved bool
+}
+
+func (c *cachingSource) resolve() error {
+	if c.resolved {
+		return nil
+	}
+	var err error
+	if c.id, c.key, err = c.inner.X25519EncryptionKey(); err != nil {
+		return err
+	}
+	c.prevID, c.prevKey, c.prevErr = c.inner.PreviousX25519EncryptionKey()
+	c.resolved = true
+	return nil
+}
+
+func (c *cachingSource) X25519EncryptionKey() (string, []byte, error) {
+	if err := c.resolve(); err != nil {
+		return "", nil, err
+	}
+	return c.id, c.key, nil
+}
+
+func (c *cachingSource) PreviousX25519EncryptionKey() (string, []byte, error) {
+	if err := c.resolve(); err != nil {
+		return "", nil, err
+	}
+	return c.prevID, c.prevKey, c.prevErr
+}
+
+// TestProp_Sequences: several messages through the SAME key sources (fresh or
+// key-retaining), in both directions; every message must round-trip, and a party
+// with another secret must still fail after any number of messages.
+func TestProp_Sequences(t *testing.T) {
+	rec := vkit.Rec(prop)
+	vkit.SetRapidChecks(vkit.N(300))
+	rapid.Check(t, func(t *rapid.T) {
+		s := newSetup(rapid.Bool().Draw(t, "withPrev"))
+		nSide, sSide := s.sides(t)
+		o := newSetup(false)
+		oN, oS := o.sides(t)
+		retain := rapid.Bool().Draw(t, "sourcesRetainTheirKey")
+		var node, server, otherNode, otherServer nodeenrollment.X25519KeyProducer = nSide, sSide, oN, oS
+		if retain {
+			node, server, otherNode, otherServer = &cachingSource{inner: nSide}, &cachingSource{inner: sSide}, &cachingSource{inner: oN}, &cachingSource{inner: oS}
+		}
+		n := rapid.IntRange(2, 5).Draw(t, "messages")
+		var shape []string
+		for i := 0; i < n; i++ {
+			dir := rapid.SampledFrom([]string{"node->server", "server->node", "other-pair", "cross"}).Draw(t, "direction")
+			shape = append(shape, dir)
+			msg := &types.WrappingRegistrationFlowInfo{Nonce: []byte(fmt.Sprintf("message %d", i))}
+			var from, to nodeenrollment.X25519KeyProducer
+			mustFail := false
+			switch dir {
+			case "node->server":
+				from, to = node, server
+			case "server->node":
+				from, to = server, node
+			case "other-pair":
+				from, to = otherNode, otherServer
+			default: // a message of the other pair presented to this pair's receiver
+				from, to, mustFail = otherNode, server, true
+			}
+			ct, err := nodeenrollment.EncryptMessage(ctx, msg, from)
+			if err != nil {
+				vkit.Violate(t, prop, "C11/encrypt-error/sequence", fmt.Sprintf("message %d (%s): %v", i, dir, err), map[string]any{"sequence": shape, "sources_retain_key": retain})
+				return
+			}
+			got, derr, panicked := decrypt(t, ct, to, msg, "sequence", map[string]any{"sequence": shape})
+			if panicked {
+				return
+			}
+			if mustFail && derr == nil {
+				vkit.Violate(t, prop, "C11/accepts-wrong-secret/sequence", fmt.Sprintf("after %d earlier messages a party with a different shared secret decrypted a message", i), map[string]any{"sequence": shape, "sources_retain_key": retain})
+				return
+			}
+			if !mustFail && (derr != nil || !proto.Equal(got, msg)) {
+				vkit.Violate(t, prop, "C11/roundtrip/sequence", fmt.Sprintf("message %d of a sequence (%s) through the same key sources did not round-trip: %v", i, dir, derr), map[string]any{"sequence": shape, "sources_retain_key": retain})
+				return
+			}
+		}
+		rec.Case(map[bool]string{true: "sequence/key-retaining-sources", false: "sequence/fresh-derivation"}[retain], fmt.Sprint(shape, retain), true, func() any {
+			return map[string]any{"sequence": shape, "sources_retain_key": retain}
+		})
+	})
 }
